@@ -49,6 +49,13 @@ public:
   static void check_seed_hash(uint16_t actual, uint16_t expected) {
     check_value(actual, expected, "seed hash");
   }
+  // a sketch cannot retain more entries than the largest hash table holds:
+  // keeps a corrupted count from driving the allocation when reading from a stream
+  static void check_num_entries(uint32_t num_entries) {
+    if (num_entries > (1u << (theta_constants::MAX_LG_K + 1))) {
+      throw std::invalid_argument("Possible corruption: number of entries " + std::to_string(num_entries));
+    }
+  }
 };
 
 template<bool dummy>
